@@ -144,9 +144,31 @@ func (w *tbWorld) ExecuteRuleEntry(ctx context.Context, cycle uint64, e *ast.Rul
 	verif.Event("EX", cycle, e.RuleName)
 }
 
+// tbViaGRB: when set, the knowledge base under test is the one obtained by storing the built one and loading it again
+// (the loader rebuilds the working-memory index maps: C02 / C12).
+var tbViaGRB bool
+
+func reloadLibrary(lib *ast.KnowledgeLibrary) *ast.KnowledgeLibrary {
+	wr := &vcWriter{}
+	if err := lib.StoreKnowledgeBaseToWriter(wr, "T", "1"); err != nil {
+		verif.Stop("store failed")
+	}
+	lib2 := ast.NewKnowledgeLibrary()
+	kb2, err, pan := loadKB(&vcReader{data: wr.buf, limit: len(wr.buf)}, true, lib2)
+	if err != nil || pan || kb2 == nil {
+		verif.Assert("C12:load-succeeds-on-the-full-stream", false)
+		verif.Stop("load failed")
+	}
+	return lib2
+}
+
 func tbSetup(tmpl string, shape int, permute bool) *tbWorld {
 	w := &tbWorld{tmpl: tmpl}
 	w.lib = zzkb.LoadLibrary(tmpl)
+	if tbViaGRB {
+		w.lib = reloadLibrary(w.lib)
+		w.tmpl = tmpl + "/loaded-from-GRB"
+	}
 	var err error
 	w.kb, err = w.lib.NewKnowledgeBaseInstance("T", "1")
 	verif.Assert(w.L("C09:instance-creation-succeeds"), err == nil)
@@ -285,6 +307,7 @@ var tbSets = map[string][]string{
 	"values":  {"b_compound", "b_args", "b_float", "b_string"},
 	"reuse":   {"b_unread", "b_retract", "b_basic"},
 	"reuseq":  {"b_unread", "b_basic"},
+	"dbg":     {"b_forget"},
 	"fetch":   {"b_basic", "b_short", "b_map", "b_slice", "b_nested", "b_shared"},
 	"clone":   {"b_argshare", "b_shared", "b_short", "b_retract", "b_map", "b_slice_sel", "b_forgetcall", "two"},
 }
@@ -624,4 +647,10 @@ func VerifClockReuse() {
 		verif.Assert("C08:clock-read-in-a-later-call-is-not-older-than-the-call@b_clock", w.f.RI >= start)
 	}
 	_ = first
+}
+
+// VerifTierBSetLoaded / VerifMemoStepLoaded: the same harnesses on the knowledge base loaded back from its GRB image.
+func VerifTierBSetLoaded(set string, maxCycle int, flags int) {
+	tbViaGRB = true
+	VerifTierBSet(set, maxCycle, flags)
 }
